@@ -8,6 +8,12 @@ Static exception-escape analysis of everything reachable from parse_string / par
  R-COVER        every documented rule has a SchemaError raise control-dependent on that rule's data
  R-LINE-COUNT   the lexer's line counter advances exactly once per physical line terminator (regex AST of the
                 newline token: language, CRLF as one token, no other class consumes terminator characters)
+The rules are stated on canonical views (sa/pyfront.py): calls through dispatch tables of bound methods and through
+callable parameters resolve to all targets; a helper that always raises is a raise; a checking / predicate helper is its
+test at the call site; private helpers inherit what holds at all their call sites; a dispatch table is read once per
+entry (R-COVER); flag-run loops are judged by the test that guards the use (LOOP-NONEMPTY).  What cannot be interpreted
+(an untraceable callable, key or unpacked value, a raise whose variable has no inferable class) is reported as
+ANALYSIS-ERROR, not as a violation.
 Not decided: that the error line is the *right* line; TypeErrors from operand types other than ordering
 comparisons (left to the repository's own type checker); I/O errors of parse_file (outside the quantifier:
 inputs are texts); termination of the regex engine.
@@ -35,6 +41,8 @@ IDIOMS = {
     "VALIDATOR-GUARANTEE": "key is a field the validator has checked to be in the table, for every declaration, before any consumer runs",
     "LITERAL-ARITY": "unpacking of a tuple literal of the same length",
     "RETURN-ARITY": "unpacking of the result of a function all of whose returns are tuple literals of that length",
+    "DISPATCH-ARITY": "unpacking of a value that can only be one of the tuple literals (of that length) stored in a dict "
+                      "literal that is only ever looked up; a `.get` miss (None) is excluded by a dominating test",
     "FIELD-ARITY": "unpacking of elements of a list field that is only ever filled with tuple literals of that length",
     "NOT-NONE": "dereference dominated by a test that the value is not None / truthy",
     "ISINSTANCE": "attribute of a union-typed member dominated by an isinstance test of a class that declares it",
@@ -68,6 +76,7 @@ class Ctx:
         # _validate is analysed even if an edit disconnects it (R-ASSUME-GUAR then reports the missing call)
         self.closure = P.closure(self.roots + [self.m.func("_validate")])
         self.noret = P._noret(self.m)
+        self.und = P.Undecided()
 
     def sites_of(self, fn):
         return P.call_sites(fn, self.closure)
@@ -512,6 +521,23 @@ def _run_block(stmts, know, fn, cursor, err_fn):
             continue
         if isinstance(s, ast.Return):
             return f"line {s.lineno}: returns normally with 'eof' consumed"
+        if isinstance(s, ast.Expr) and isinstance(s.value, ast.Call) and not any(
+                _has_cursor(a, fn, cursor, err_fn) for a in list(s.value.args) + [k.value for k in s.value.keywords]):
+            # a helper that always raises is a raise; a pure checking helper is its `if c: raise` at the call site
+            if P.is_raise_site(s, fn):
+                return "raise"
+            tests = P._post_call_tests(s.value, fn)
+            if tests:
+                undecided = None
+                for t in tests:
+                    v = know.holds(know.forms.mk(t))
+                    if v is True:
+                        return "raise"
+                    if v is None:
+                        undecided = t
+                if undecided is not None:
+                    return f"line {s.lineno}: cannot decide `{P.text(undecided)[:60]}` for an 'eof' token"
+                continue
         if isinstance(s, (ast.Assign, ast.AugAssign, ast.Expr, ast.AnnAssign, ast.Pass)):
             if _has_cursor(s, fn, cursor, err_fn):
                 return f"line {s.lineno}: the cursor is used with 'eof' consumed"
@@ -785,21 +811,63 @@ def _field_arity(field, k, cx):
     return found
 
 
+def _arity_of(value, fn, n):
+    """The idiom by which the expression `value` yields exactly n values, or None."""
+    if isinstance(value, ast.Tuple) and len(value.elts) == n and not any(isinstance(e, ast.Starred) for e in value.elts):
+        return "LITERAL-ARITY"
+    if isinstance(value, ast.Call) and fn is not None:
+        kind, p = P.resolve(value, fn)
+        if kind == "func" and p and all(_tuple_returns(g) == n for g in p):
+            return "RETURN-ARITY"
+        if isinstance(value.func, ast.Attribute) and value.func.attr == "pop" and isinstance(value.func.value, ast.Name):
+            el = _list_elem_exprs(value.func.value.id, fn)
+            if el and all(isinstance(e, ast.Tuple) and len(e.elts) == n for e in el):
+                return "FIELD-ARITY"
+    return None
+
+
+def _arity_untraceable(value, fn):
+    """No possible value of `value` has a known arity (nothing definite can be said about the unpacking)."""
+    for node, lf, idx in P.leaves(value, fn):
+        if idx is not None:
+            continue
+        if isinstance(node, (ast.Tuple, ast.List, ast.Constant, ast.Dict, ast.Set, ast.JoinedStr)):
+            return False
+        if isinstance(node, ast.Call) and lf is not None:
+            kind, p = P.resolve(node, lf)
+            if kind != "unknown":
+                return False
+    return True
+
+
 def _unpack_ok(target, value, fn, cx, is_iter):
     n = len(target.elts)
     if any(isinstance(e, ast.Starred) for e in target.elts):
         return None, "starred unpacking"
     if not is_iter:
-        if isinstance(value, ast.Tuple) and len(value.elts) == n:
-            return "LITERAL-ARITY", ""
-        if isinstance(value, ast.Call):
-            kind, p = P.resolve(value, fn)
-            if kind == "func" and all(_tuple_returns(g) == n for g in p):
-                return "RETURN-ARITY", ""
-            if isinstance(value.func, ast.Attribute) and value.func.attr == "pop" and isinstance(value.func.value, ast.Name):
-                el = _list_elem_exprs(value.func.value.id, fn)
-                if el and all(isinstance(e, ast.Tuple) and len(e.elts) == n for e in el):
-                    return "FIELD-ARITY", ""
+        direct = _arity_of(value, fn, n)
+        if direct:
+            return direct, ""
+        # the value is held by a local / taken from a dispatch table: every expression it can stand for must have
+        # the arity; None (a `.get` miss) must be excluded by a dominating test
+        lv = P.leaves(value, fn)
+        if lv and not (len(lv) == 1 and lv[0][0] is value):
+            idioms = set()
+            for node, lf, idx in lv:
+                if idx is not None:
+                    return None, f"`{P.text(value)}` can be a component of `{P.text(node)[:40]}`, whose arity is not known"
+                if isinstance(node, ast.Constant) and node.value is None:
+                    k = P.know_at(target, fn)
+                    k.forms.nodes.setdefault(P.text(value), value)
+                    if k.val(("isnone", P.text(value))) is not False:
+                        return None, f"`{P.text(value)}` can be None here (dispatch miss): unpacking raises TypeError"
+                    continue
+                a = _arity_of(node, lf, n)
+                if not a:
+                    return None, f"`{P.text(value)}` can be `{P.text(node)[:40]}`, which is not known to yield exactly {n} values"
+                idioms.add(a)
+            if idioms:
+                return "DISPATCH-ARITY" if idioms == {"LITERAL-ARITY"} else sorted(idioms)[0], ""
         return None, f"cannot prove `{P.text(value)}` yields exactly {n} values"
     if isinstance(value, ast.Call) and isinstance(value.func, ast.Attribute) and value.func.attr == "items" and n == 2:
         return "LITERAL-ARITY", ""
@@ -898,6 +966,17 @@ def rule_ops(res, cx):
                             why = num_msg
                     bad(construct, n, f"{name}() can raise ValueError: {why}")
                     continue
+                if kind == "func" and isinstance(n.func, ast.Name) and P._scope_of(n.func.id, fn) is not None and \
+                        any(isinstance(x, ast.Constant) and x.value is None for x, _, _ in P.leaves(n.func, fn)):
+                    # a callable taken from a dispatch table with `.get` (or passed as None): calling None is a TypeError
+                    k = P.know_at(n, fn)
+                    k.forms.nodes.setdefault(n.func.id, n.func)
+                    if k.val(("isnone", n.func.id)) is False:
+                        ok(construct, "NOT-NONE", n)
+                    else:
+                        bad(construct, n, f"`{n.func.id}` may be None here (dispatch miss / None argument): calling it raises "
+                            "TypeError; no dominating not-None test")
+                    continue
                 if kind == "func" or kind == "class":
                     continue
                 if kind == "builtin":
@@ -942,7 +1021,9 @@ def rule_ops(res, cx):
                         bad(construct, n, f"method `.{name}()` can raise (or is not classified); no idiom")
                     # None receiver handled below
                 else:
-                    bad(construct, n, f"unclassified call `{P.text(n.func)}`")
+                    # a call the analyser cannot resolve (a callable it cannot trace): cannot decide, not a violation
+                    cx.und.add("R-EXC-OPS", construct, FILE, n.lineno, f"unclassified call `{P.text(n.func)}`: its target "
+                               "cannot be resolved to functions of the module")
                     continue
             # ---- subscripts
             if isinstance(n, ast.Subscript) and isinstance(n.ctx, ast.Load) and not isinstance(n.slice, ast.Slice):
@@ -966,14 +1047,17 @@ def rule_ops(res, cx):
                     ok(construct, "LOOP-NONEMPTY", n)
                 elif isinstance(n.value, ast.Name) and ((isinstance(n.slice, ast.Constant) and n.slice.value == 0) or kt == "-1"):
                     bad(construct, n, "subscript can raise IndexError: not LOOP-NONEMPTY (" + loop_nonempty(n, n.value, fn) + ")")
-                elif P.table_of(n.value):
-                    T = P.table_of(n.value)
+                elif P.table1(n.value, fn):
+                    T = P.table1(n.value, fn)
                     org = P.origins(n.slice, fn, n)
                     miss = [o for o in org if not (o == ("key", T) or (o[0] == "field" and any(
                         g["cls"] == o[1] and g["field"] == o[2] and g["table"] == T and
                         (g["types"] is None or _types_at(n, fn, n.slice, sm) <= g["types"]) for g in guar)))]
                     if org and not miss:
                         ok(construct, "VALIDATOR-GUARANTEE", n)
+                    elif not org or all(o[0] == "unknown" or P.weak_guarantee(o, T) for o in miss):
+                        cx.und.add("R-EXC-OPS", construct, FILE, n.lineno,
+                                   f"key of schema.{T} lookup has an origin the analyser cannot trace: {sorted(map(str, miss or org))}")
                     else:
                         bad(construct, n, f"lookup in schema.{T} with a key of origin {sorted(map(str, miss or org))}: no dominating "
                             "membership test and no validator guarantee")
@@ -991,8 +1075,10 @@ def rule_ops(res, cx):
                 idiom, why = _unpack_ok(tgt, val, fn, cx, it)
                 if idiom:
                     ok(construct, idiom, tgt)
+                elif not it and not why.startswith("!") and _arity_untraceable(val, fn):
+                    cx.und.add("R-EXC-OPS", construct, FILE, tgt.lineno, "tuple unpacking: " + why)
                 else:
-                    bad(construct, tgt, "tuple unpacking can raise ValueError: " + why)
+                    bad(construct, tgt, "tuple unpacking can raise ValueError: " + why.lstrip("!"))
             # ---- None dereference / union member attribute
             base = None
             if isinstance(n, ast.Attribute) and isinstance(n.ctx, ast.Load):
@@ -1138,11 +1224,25 @@ def loop_nonempty(op, lst, fn):
     if owner is not fn:
         return f"`{lst.id}` belongs to {owner.qual}, the use is in {fn.qual}"
     W = next((a for a in P.ancestors(op) if isinstance(a, ast.While) and a._fn is fn), None)
-    if W is None or not (isinstance(W.test, ast.Name) and W.test.id == lst.id) or not any(P.inside(op, b) for b in W.body):
-        return f"not in the body of the innermost enclosing `while {lst.id}:`"
+    if W is None or not any(P.inside(op, b) for b in W.body):
+        return f"not in the body of a `while` loop that tests `{lst.id}`"
+    # the test that establishes non-emptiness on every pass: the loop condition `while x:` itself, or -- in a loop run by
+    # a flag / `while True` -- a test inside the loop whose other side leaves the pass (`if not x: ...; continue/break`)
+    guard = None
+    forms = P.Forms(fn)
+    for f, origin, tag in P.raw_facts(op, fn, forms):
+        if f == ("lit", ("truthy", lst.id), True) and (origin is W.test or P.inside(origin, W)) and P.still_valid(origin, op, fn):
+            if guard is None or P.pos(origin) > P.pos(guard):
+                guard = origin
+    if guard is None:
+        return f"not in the body of the innermost enclosing `while {lst.id}:` (and no test of `{lst.id}` inside the loop guards it)"
     root, fam = _family(fn)
     inner = [L for L in P.loops_of(op) if L is not W and P.inside(L, W) and
              any(P.inside(op, b) for b in L.body)]           # loops whose *body* (not iter / else) repeats the use
+    if guard is not W.test and any(not P.inside(guard, L) for L in inner):
+        inner = [L for L in inner if not P.inside(guard, L)]
+    elif guard is not W.test:
+        inner = []
     for g, sn in _shrinks(lst.id, owner, fam):
         if g is not fn or not P.inside(sn, W):
             if g is fn:
@@ -1152,7 +1252,7 @@ def loop_nonempty(op, lst, fn):
             if inner:
                 return f"the use shrinks `{lst.id}` itself and repeats inside an inner loop"
             continue
-        if P.pos(sn) < P.pos(op):
+        if P.pos(guard) < P.pos(sn) < P.pos(op) or (guard is W.test and P.pos(sn) < P.pos(op)):
             return f"`{P.text(sn)[:40]}` (line {sn.lineno}) can shrink `{lst.id}` between the loop test and this use"
         if any(any(P.inside(sn, b) for b in L.body) for L in inner):
             return f"`{P.text(sn)[:40]}` (line {sn.lineno}) can shrink `{lst.id}` in an earlier pass of the inner loop"
@@ -1277,9 +1377,9 @@ def rule_guar(res, cx):
     # consumers: functions outside the validator's own frame that subscript a table without a local membership fact
     for fn in m.funcs.values():
         for n in m.nodes(fn):
-            if not (isinstance(n, ast.Subscript) and isinstance(n.ctx, ast.Load) and P.table_of(n.value) and not n._ann):
+            if not (isinstance(n, ast.Subscript) and isinstance(n.ctx, ast.Load) and P.table1(n.value, fn) and not n._ann):
                 continue
-            T = P.table_of(n.value)
+            T = P.table1(n.value, fn)
             k = P.know_at(n, fn)
             kt, ct = P.text(n.slice), P.text(n.value)
             k.forms.nodes.setdefault(kt, n.slice)
@@ -1299,6 +1399,10 @@ def rule_guar(res, cx):
                     used.extend(gs)
                 else:
                     miss.append(o)
+            if not org or (miss and all(o[0] == "unknown" or P.weak_guarantee(o, T) for o in miss)):
+                cx.und.add("R-ASSUME-GUAR", construct, FILE, n.lineno,
+                           f"key of schema.{T} lookup has an origin the analyser cannot trace: {sorted(map(str, miss or org))}")
+                continue
             if miss or not org:
                 res.bad("R-ASSUME-GUAR", construct, FILE, n.lineno,
                         f"key origin {sorted(map(str, miss or org))} is not covered by any check in _validate "
@@ -1380,14 +1484,18 @@ def rule_recursion(res, cx):
 class Site:
     """A SchemaError raise site with what is known to hold there, in canonical (class-named, local-expanded) form."""
 
-    def __init__(self, fn, stmt, cx, subst=None, anchor=None):
+    def __init__(self, fn, stmt, cx, subst=None, anchor=None, case=None):
         self.fn, self.stmt, self.cx = fn, stmt, cx
         self.anchor = anchor or stmt
         self.know = P.know_at(stmt, fn)
         self.subst = subst or {}
+        self.case = case or {}          # dispatch case of the function the anchor is in: local name -> expression text
         self.keys = []
         for key, v in self.know.K.items():
             self.keys.append((tuple(self.canon(x) if i and isinstance(x, str) else x for i, x in enumerate(key)), v))
+        for f in self.know.fs:          # atoms of undecided disjunctions: the raise depends on them, polarity unknown
+            for key in _atoms(f):
+                self.keys.append((tuple(self.canon(x) if i and isinstance(x, str) else x for i, x in enumerate(key)), None))
         sm = cx.sm
         var = None
         for key, _ in self.know.K.items():
@@ -1422,6 +1530,8 @@ class Site:
             def visit_Name(self, n):
                 if n.id in site.subst:
                     return ast.parse(site.subst[n.id], mode="eval").body
+                if n.id in site.case and not site.subst and depth < 4:
+                    return ast.parse("(" + site.canon(site.case[n.id], depth + 1) + ")", mode="eval").body
                 c = site._cls(n.id)
                 if c:
                     return ast.Name(id=c, ctx=ast.Load())
@@ -1446,7 +1556,37 @@ class Site:
                             return ast.parse("(" + site.canon(P.text(val), depth + 1) + ")", mode="eval").body
                 return n
 
+            def visit_Attribute(self, n):
+                if isinstance(n.value, ast.Name) and n.value.id == "self" and site.fn.cls and not site.subst and \
+                        "self" not in site.case:
+                    # a field of a helper class that holds a schema object (`self.schema`): named by its class
+                    probe = P.graft(P.clone(n), site.stmt)
+                    c = P.classes_of(probe, site.fn, site.stmt)
+                    if len(c) == 1:
+                        return ast.Name(id=next(iter(c)), ctx=ast.Load())
+                return self.generic_visit(n)
+
         return ast.unparse(T().visit(tree))
+
+    def untyped(self):
+        """Local variables whose attributes the conditions of this raise read, but whose class could not be inferred
+        (the canonical form keeps their name): the site may be the one a rule is looking for."""
+        out = set()
+        for key, _ in self.keys:
+            for x in key[1:]:
+                if not isinstance(x, str):
+                    continue
+                try:
+                    tree = ast.parse(x, mode="eval").body
+                except SyntaxError:
+                    continue
+                bound = {y.id for c in ast.walk(tree) if isinstance(c, ast.comprehension) for y in ast.walk(c.target)
+                         if isinstance(y, ast.Name)}
+                for a in ast.walk(tree):
+                    if isinstance(a, ast.Attribute) and isinstance(a.value, ast.Name) and a.value.id not in bound and \
+                            a.value.id not in self.cx.m.classes and P._scope_of(a.value.id, self.fn) is not None:
+                        out.add(a.value.id)
+        return out
 
     def has(self, pred, pol=None):
         return any(pred(k) and (pol is None or v == pol) for k, v in self.keys)
@@ -1461,9 +1601,49 @@ def _atoms(f):
     return out
 
 
+def _dispatch_cases(fn):
+    """[{local name: expression text}]: one environment per entry of a dispatch table `fn` selects a handler from --
+    `h = D.get(k)` / `h = D[k]` on a lookup-only dict literal, optionally unpacked `a, b = h` -- so that what follows can
+    be read once per entry, as the if/elif chain it stands for.  [{}] when fn has no such table."""
+    tables = {}
+    for name, st in P.stores_of(fn).items():
+        st = [x for x in st if not any(isinstance(a, ast.comprehension) for a in P.ancestors(x))]
+        if len(st) != 1 or name in fn.params:
+            continue
+        x = st[0]
+        top = x
+        while not isinstance(top._parent, ast.stmt):
+            top = top._parent
+        a = top._parent
+        if not (isinstance(a, ast.Assign) and top._field == "targets" and len(a.targets) == 1):
+            continue
+        idx = None if top is x else P._target_pos(top, name)
+        if idx is False:
+            continue
+        src = a.value
+        if isinstance(src, ast.Name):               # a, b = h   with   h = D.get(k)
+            hs = [y for y in P.stores_of(fn).get(src.id, [])]
+            if len(hs) != 1 or not (isinstance(hs[0]._parent, ast.Assign) and hs[0]._field == "targets"):
+                continue
+            src = hs[0]._parent.value
+        look = P._lookup_source(src, fn)
+        if not look or look[1] is not fn and look[1] is not None:
+            continue
+        vals = look[0]
+        if idx is not None and not all(isinstance(v, ast.Tuple) and idx < len(v.elts) for v in vals):
+            continue
+        d = src.value if isinstance(src, ast.Subscript) else src.func.value
+        tables.setdefault(P.text(d), {})[name] = [P.text(v if idx is None else v.elts[idx]) for v in vals]
+    if len(tables) != 1:
+        return [{}]
+    cols = next(iter(tables.values()))
+    n = len(next(iter(cols.values())))
+    return [{name: texts[i] for name, texts in cols.items()} for i in range(n)] or [{}]
+
+
 def _sites(cx):
     """All raise sites of the closure, plus one instantiated copy per call site for helpers whose conditions
-    read their parameters."""
+    read their parameters (and one per dispatch-table entry where the function selects a handler from a table)."""
     out = []
     for fn in cx.closure:
         if fn in cx.noret and fn.parent is not None:
@@ -1471,6 +1651,9 @@ def _sites(cx):
         for st in P.raise_sites(fn):
             base = Site(fn, st, cx)
             out.append(base)
+            for case in _dispatch_cases(fn):
+                if case:
+                    out.append(Site(fn, st, cx, case=case))
             params = [p for p in fn.params if p != "self"]
             mentions = any(any(isinstance(x, str) and re.search(r"(?<![\w.])" + re.escape(p) + r"(?![\w])", x)
                                for x in key[1:]) for key, _ in base.know.K.items() for p in params)
@@ -1479,9 +1662,10 @@ def _sites(cx):
             for caller, call in cx.sites_of(fn):
                 if caller is fn:
                     continue
-                cs = Site(caller, P.stmt_of(call), cx)
-                sub = {p: "(" + cs.canon(P.text(a)) + ")" for p, a in P.bind_args(call, fn).items()}
-                out.append(Site(fn, st, cx, subst=sub, anchor=P.stmt_of(call)))
+                for case in _dispatch_cases(caller):
+                    cs = Site(caller, P.stmt_of(call), cx, case=case)
+                    sub = {p: "(" + cs.canon(P.text(a)) + ")" for p, a in P.bind_args(call, fn).items()}
+                    out.append(Site(fn, st, cx, subst=sub, anchor=P.stmt_of(call), case=case))
     return out
 
 
@@ -1507,9 +1691,17 @@ def rule_cover(res, cx):
              "raise control-dependent on a condition reading that rule's data", floor=24)
     m, sm = cx.m, cx.sm
     sites = _sites(cx)
-    res.count("raise_sites", len([s for s in sites if not s.subst]))
+    res.count("raise_sites", len([s for s in sites if not s.subst and not s.case]))
     intparse = {f for f in cx.closure if any(isinstance(n, ast.Call) and isinstance(n.func, ast.Name) and n.func.id == "int"
                                             for n in m.nodes(f))}
+    grew = True                 # ... or that hand the conversion to a helper: a value they return is still a parsed int
+    while grew:
+        grew = False
+        for f in cx.closure:
+            if f not in intparse and f.node.returns is not None and P._ann_names(f.node.returns) <= {"int"} and \
+                    any(g in intparse for g in P.callees(f)):
+                intparse.add(f)
+                grew = True
 
     def k_in(s, left, right, pol):
         return s.has(lambda k: k[0] == "in" and left(_strip(k[1])) and right(_strip(k[2])), pol)
@@ -1525,12 +1717,12 @@ def rule_cover(res, cx):
             for k, v in s.keys:
                 if k[0] == "in" and v and _strip(k[2]) == f"Schema.{T}":
                     A = _strip(k[1])
-                    owner = Site(s.anchor._fn, s.anchor, cx) if s.subst else s
+                    owner = Site(s.anchor._fn, s.anchor, cx, case=s.case) if s.subst else s
                     cur = s.anchor
                     while isinstance(cur, ast.stmt) and isinstance(cur._idx, int):
                         for later in getattr(cur._parent, cur._field)[cur._idx + 1:]:
                             if isinstance(later, ast.Assign) and isinstance(later.targets[0], ast.Subscript) and \
-                                    P.table_of(later.targets[0].value) == T and \
+                                    _strip(owner.canon(P.text(later.targets[0].value))) == f"Schema.{T}" and \
                                     _strip(owner.canon(P.text(later.targets[0].slice))) == A:
                                 return True
                         cur = cur._parent
@@ -1605,12 +1797,40 @@ def rule_cover(res, cx):
             if k[0] == "in" and not v and _strip(k[1]) == "Attr.target":
                 N = _strip(k[2])
                 scope = s.anchor._fn if s.subst else s.fn
+                # the set N is made of the targets of id<..> attributes: grown by N.add(x.target) or built by a set
+                # comprehension over x.target, in either case where x.type == 'id' is known
+                elems = []
+                try:
+                    nt = ast.parse(N, mode="eval").body
+                except SyntaxError:
+                    nt = None
+                comps = [nt]
+                if isinstance(nt, ast.Call) and isinstance(nt.func, ast.Name) and nt.func.id in m.funcs:
+                    # built by a helper: what the helper returns
+                    comps = [r.value for r in m.nodes(m.funcs[nt.func.id]) if isinstance(r, ast.Return)]
+                for ct in comps:
+                    if isinstance(ct, ast.SetComp) and isinstance(ct.elt, ast.Attribute) and ct.elt.attr == "target" and \
+                            isinstance(ct.elt.value, ast.Name):
+                        # the (single-assigned) set was expanded to its comprehension by the canonical form
+                        forms = P.Forms()
+                        lits = []
+                        for g in ct.generators:
+                            for c in g.ifs:
+                                f = forms.mk(c)
+                                lits.extend(f[1] if f[0] == "and" else [f])
+                        if ("lit", ("eq", f"{ct.elt.value.id}.type", "'id'"), True) in lits and len(comps) == 1:
+                            return True
                 for n in m.nodes(scope):
                     if isinstance(n, ast.Call) and isinstance(n.func, ast.Attribute) and n.func.attr == "add" and \
-                            P.text(n.func.value) == N and n.args and isinstance(n.args[0], ast.Attribute) and \
-                            n.args[0].attr == "target" and isinstance(n.args[0].value, ast.Name):
-                        kk = P.know_at(n, scope)
-                        if kk.K.get(("eq", f"{n.args[0].value.id}.type", "'id'")) is True:
+                            P.text(n.func.value) == N and n.args:
+                        elems.append(n.args[0])
+                    if isinstance(n, ast.Assign) and len(n.targets) == 1 and P.text(n.targets[0]) == N and \
+                            isinstance(n.value, ast.SetComp):
+                        elems.append(n.value.elt)
+                for e in elems:
+                    if isinstance(e, ast.Attribute) and e.attr == "target" and isinstance(e.value, ast.Name):
+                        kk = P.know_at(e, scope)
+                        if kk.K.get(("eq", f"{e.value.id}.type", "'id'")) is True:
                             return True
         return False
 
@@ -1674,11 +1894,18 @@ def rule_cover(res, cx):
         ("default:count-at-most-hi", lambda s: notnone_default(s) and NUMERIC_T <= s.tset and
          s.has(lambda k: k[0] == "cmp" and "len(Attr.default)" in k[2] + k[3] and "Attr.arity.hi" in k[2] + k[3], True)),
     ]
+    untyped = sorted({(v, s.stmt.lineno) for s in sites for v in s.untyped()})
+    res.extra["untyped_raise_conditions"] = [f"{v}@{ln}" for v, ln in untyped]
     for name, pred in REQ:
         hit = [s for s in sites if pred(s)]
         if hit:
             res.ok("R-COVER", f"rule:{name}", {"file": FILE, "line": hit[0].stmt.lineno, "in": hit[0].fn.qual,
                                                 "sites": len(hit)})
+        elif untyped:
+            # some raise depends on attributes of a variable whose class the analyser could not infer: it may be the
+            # check this rule is looking for -- cannot decide
+            cx.und.add("R-COVER", f"rule:{name}", FILE, untyped[0][1], "no raise site matches the rule's data, but the class of "
+                       f"`{untyped[0][0]}` (read by the raise at line {untyped[0][1]}) could not be inferred")
         else:
             anchor = m.func("_validate").node.lineno
             res.bad("R-COVER", f"rule:{name}", FILE, anchor,
@@ -1957,6 +2184,7 @@ def run(res, tier):
     rule_cover(res, cx)
     rule_line_count(res, cx)
     res.count("functions", len(cx.closure))
+    cx.und.finish(res)
     res.explanation = (
         "Exception-escape analysis of mjcf_schema.py over the call closure of parse_string/parse_file (ast only). "
         "Decided: every raise is a SchemaError whose line comes from a token/declaration line or the lexer's newline "
@@ -1973,3 +2201,268 @@ def run(res, tier):
     res.assumptions = ["token lines are >= 1, so `line or self.peek().line` never evaluates peek() when line= is passed",
                        "dict tables are never shrunk between a membership test and the lookup (no del/pop/clear in the closure: checked)",
                        "dataclass field annotations in mjcf_schema.py describe the values stored (name-based typing)"]
+
+
+# ============================================================================ self-test (thorough tier)
+_PARSE_CHAIN = """      token = self.expect('ident')
+      if token.value == 'enum':
+        enum = self.parse_enum(token.line)
+        self.declare(schema.enums, enum.name, 'enum', token.line)
+        schema.enums[enum.name] = enum
+      elif token.value == 'group':
+        group = self.parse_group(token.line)
+        self.declare(schema.groups, group.name, 'group', token.line)
+        schema.groups[group.name] = group
+      elif token.value == 'element':
+        element = self.parse_element(token.line)
+        self.declare(schema.elements, element.name, 'element', token.line)
+        schema.elements[element.name] = element
+      else:
+        raise self.error(
+            f"expected 'enum', 'group' or 'element', "
+            f'got {token.value!r}', line=token.line)
+"""
+_PARSE_WHILE = "    while self.peek().kind != 'eof':\n"
+
+
+def _dispatch(entries, guard=True, unpack="parse_decl, table = handler"):
+    """parse() rewritten as a dict dispatch to bound methods (the shape of refactor E-p1), with knobs for defects."""
+    table = "    declarations = {\n" + "".join(f"        {e},\n" for e in entries) + "    }\n"
+    body = "      keyword = self.expect('ident')\n      handler = declarations.get(keyword.value)\n"
+    if guard:
+        body += ("      if handler is None:\n        raise self.error(\n            f\"expected 'enum', 'group' or 'element', \"\n"
+                 "            f'got {keyword.value!r}', line=keyword.line)\n")
+    body += (f"      {unpack}\n      decl = parse_decl(keyword.line)\n"
+             "      self.declare(table, decl.name, keyword.value, keyword.line)\n      table[decl.name] = decl\n")
+    return [(FILE, _PARSE_WHILE + _PARSE_CHAIN, table + _PARSE_WHILE + body)]
+
+
+_ENTRIES = ["'enum': (self.parse_enum, schema.enums)", "'group': (self.parse_group, schema.groups)",
+            "'element': (self.parse_element, schema.elements)"]
+_CHILD_CHECK = ("      if child.name not in schema.elements:\n"
+                "        err(child.line, f'child references undeclared element {child.name!r}')\n")
+_FACETS_LOOP = """    while True:
+      token = self.expect('ident')
+      if token.value not in known:
+        raise self.error(f'unknown facet {token.value!r}', line=token.line)
+      if token.value in facets:
+        raise self.error(f'duplicate facet {token.value!r}', line=token.line)
+      if self.accept('='):
+        value_token = self.next()
+        if value_token.kind == 'string':
+          facets[token.value] = value_token.value.strip('"')
+        elif value_token.kind == 'ident':
+          facets[token.value] = value_token.value
+        elif value_token.kind == 'number':
+          facets[token.value] = float(value_token.value)
+        else:
+          raise self.error(f'expected facet value, got {value_token.value!r}',
+                           line=value_token.line)
+      else:
+        facets[token.value] = True
+      if self.accept(')'):
+        return facets
+      self.expect(',')
+"""
+_FACETS_FLAG = """    closed = False
+    while not closed:
+      token = self.expect('ident')
+      facet = token.value
+      if facet not in known:
+        raise self.error(f'unknown facet {facet!r}', line=token.line)
+      if facet in facets:
+        raise self.error(f'duplicate facet {facet!r}', line=token.line)
+      facets[facet] = self._parse_facet_value() if self.accept('=') else True
+      closed = self.accept(')') is not None
+      if not closed:
+        self.expect(',')
+    return facets
+
+  def _parse_facet_value(self):
+    token = self.next()
+    if token.kind == 'string':
+      return token.value.strip('"')
+    if token.kind == 'ident':
+      return token.value
+    if token.kind == 'number':
+      return float(token.value)
+    raise self.error(f'expected facet value, got {token.value!r}',
+                     line=token.line)
+"""
+_NUMERIC_TAIL = """  if isinstance(attr.default, str):
+    err(f'default for numeric attribute {attr.name!r} must be numeric')
+  n = len(attr.default) if isinstance(attr.default, tuple) else 1
+  lo, hi = attr.arity.lo, attr.arity.hi
+  if isinstance(attr.default, tuple) and attr.arity.is_scalar():
+    err(f'vector default for scalar attribute {attr.name!r}')
+  if n < lo:
+    err(f'default for {attr.name!r} has {n} values, arity requires '
+        f'at least {lo}')
+  if isinstance(hi, int) and n > hi:
+    err(f'default for {attr.name!r} has {n} values, arity allows '
+        f'at most {hi}')
+"""
+
+
+def _numeric_helper(first_check=True):
+    helper = "\n\ndef _validate_numeric_default(attr: Attr, fail):\n  default = attr.default\n"
+    if first_check:
+        helper += "  if isinstance(default, str):\n    fail(f'default for numeric attribute {attr.name!r} must be numeric')\n"
+    helper += ("  is_vector = isinstance(default, tuple)\n  n = len(default) if is_vector else 1\n"
+               "  lo, hi = attr.arity.lo, attr.arity.hi\n  if is_vector and attr.arity.is_scalar():\n"
+               "    fail(f'vector default for scalar attribute {attr.name!r}')\n  if n < lo:\n"
+               "    fail(f'default for {attr.name!r} has {n} values, arity requires at least {lo}')\n"
+               "  if isinstance(hi, int) and n > hi:\n"
+               "    fail(f'default for {attr.name!r} has {n} values, arity allows at most {hi}')\n")
+    return [(FILE, _NUMERIC_TAIL, "  _validate_numeric_default(attr, err)\n" + helper)]
+
+
+_CHILD_LOOP = ("    seen_children = set()\n    for child in element.children():\n" + _CHILD_CHECK +
+               "      if child.name in seen_children:\n        err(child.line, f'duplicate child {child.name!r}')\n"
+               "      seen_children.add(child.name)\n")
+_VALIDATE_HEAD = 'def _validate(schema: Schema):\n  """Semantic checks; raises SchemaError on the first violation."""\n'
+
+
+def _children_helper(check=True, exc="SchemaError(schema.path, line, message)"):
+    helper = (f"def _fail(schema: Schema, line: int, message: str):\n  raise {exc}\n\n\n"
+              "def _declared(schema: Schema, name: str) -> bool:\n  return name in schema.elements\n\n\n"
+              "def _check_children(schema: Schema, element: Element):\n  seen_children = set()\n"
+              "  for child in element.children():\n")
+    if check:
+        helper += ("    if not _declared(schema, child.name):\n"
+                   "      _fail(schema, child.line, f'child references undeclared element {child.name!r}')\n")
+    helper += ("    if child.name in seen_children:\n      _fail(schema, child.line, f'duplicate child {child.name!r}')\n"
+               "    seen_children.add(child.name)\n\n\n")
+    return [(FILE, _VALIDATE_HEAD, helper + _VALIDATE_HEAD), (FILE, _CHILD_LOOP, "    _check_children(schema, element)\n")]
+
+
+MUTANTS = [
+    # ---- must fire: defects of the kind each rule exists for
+    {"id": "drop-dangling-child-check", "expect": ("R-COVER", "dangling:child"), "edits": [(FILE, _CHILD_CHECK, "")]},
+    {"id": "drop-duplicate-group-check", "expect": ("R-COVER", "unique:groups"),
+     "edits": [(FILE, "        self.declare(schema.groups, group.name, 'group', token.line)\n", "")]},
+    {"id": "unpack-wrong-arity", "expect": ("R-EXC-OPS", "_Parser.parse_attr:(attr_type,"),
+     "edits": [(FILE, "    attr_type, target, arity = self.parse_type()\n",
+                "    attr_type, target = self.parse_type()\n    arity = Arity(1, 1)\n")]},
+    {"id": "keyerror-escapes-validate-attr", "expect": ("R-EXC-OPS", "schema.enums[attr.target]"),
+     "edits": [(FILE, "  if attr.type in ('enum', 'flags') and attr.target not in schema.enums:",
+                "  if attr.type == 'flags' and attr.target not in schema.enums:")]},
+    {"id": "valueerror-escapes-parse-int", "expect": ("R-EXC-OPS", "_Parser.parse_int:int("),
+     "edits": [(FILE, "    try:\n      value = int(token.value)\n    except ValueError:\n      raise self.error(f'expected integer, got {token.value!r}',\n"
+                "                       line=token.line) from None\n", "    value = int(token.value)\n")]},
+    {"id": "raise-not-schemaerror", "expect": ("R-EXC-RAISE", "_Parser.parse_type"),
+     "edits": [(FILE, "      raise self.error(f'unknown type {token.value!r}', line=token.line)",
+                "      raise ValueError(f'unknown type {token.value!r}')")]},
+    {"id": "eof-consumed-without-raise", "expect": ("R-EXC-OPS", "_Parser.expect"),
+     "edits": [(FILE, "    if token.kind != kind:\n      raise self.error(f'expected {kind!r}, got {token.value!r}',",
+                "    if token.kind != kind and token.kind != 'eof':\n      raise self.error(f'expected {kind!r}, got {token.value!r}',")]},
+    {"id": "error-without-line", "expect": ("R-EXC-RAISE", "_Parser.parse_group"),
+     "edits": [(FILE, "      raise self.error(f'group {name!r} is empty', line=line)", "      raise self.error(f'group {name!r} is empty')")]},
+    # the same kinds of defect in the refactored shapes (dispatch table, helpers): the rules must still see them
+    {"id": "dispatch-entry-wrong-arity", "expect": ("R-EXC-OPS", "_Parser.parse:(parse_decl,"),
+     "edits": _dispatch(_ENTRIES[:2] + ["'element': (self.parse_element, schema.elements, 'element')"])},
+    {"id": "dispatch-miss-not-tested", "expect": ("R-EXC-OPS", "_Parser.parse:(parse_decl,"),
+     "edits": _dispatch(_ENTRIES, guard=False)},
+    {"id": "dispatch-wrong-table", "expect": ("R-COVER", "unique:elements"),
+     "edits": _dispatch(_ENTRIES[:2] + ["'element': (self.parse_element, schema.groups)"])},
+    {"id": "helper-raises-other-exception", "expect": ("R-EXC-RAISE", "_fail"),
+     "edits": _children_helper(exc="KeyError(message)")},
+    {"id": "helper-drops-dangling-child-check", "expect": ("R-COVER", "dangling:child"), "edits": _children_helper(check=False)},
+    {"id": "split-default-drops-string-check", "expect": ("R-COVER", "default:numeric-not-string"),
+     "edits": _numeric_helper(first_check=False)},
+    # ---- controls: behaviour-preserving shapes (small versions of the stored refactors E-p1 / E-p2)
+    {"id": "ctl-dispatch-table-of-bound-methods", "expect": None, "edits": _dispatch(_ENTRIES)},
+    {"id": "ctl-flag-loop-and-value-helper", "expect": None, "edits": [(FILE, _FACETS_LOOP, _FACETS_FLAG)]},
+    {"id": "ctl-check-in-helper-with-predicate-and-fail", "expect": None, "edits": _children_helper()},
+    {"id": "ctl-default-tail-in-helper-with-callable-param", "expect": None, "edits": _numeric_helper()},
+    {"id": "ctl-checker-helper-before-lookup", "expect": None,
+     "edits": [(FILE, "def _validate_attr(schema: Schema, attr: Attr, namespaces: set[str]):",
+                "def _require_enum(schema: Schema, attr: Attr):\n  if attr.target not in schema.enums:\n"
+                "    raise SchemaError(schema.path, attr.line, f'attribute {attr.name!r} references undeclared enum {attr.target!r}')\n\n\n"
+                "def _validate_attr(schema: Schema, attr: Attr, namespaces: set[str]):"),
+               (FILE, "  if attr.type in ('enum', 'flags') and attr.target not in schema.enums:\n"
+                "    err(f'attribute {attr.name!r} references undeclared enum {attr.target!r}')\n",
+                "  if attr.type in ('enum', 'flags'):\n    _require_enum(schema, attr)\n")]},
+]
+
+
+_GA_LOOP = """    while pending:
+      for member in pending[-1]:
+        if isinstance(member, Attr):
+          out.append(member)
+"""
+_GA_FLAG = """    done = False
+    while not done:
+      if not pending:
+        done = True
+        continue
+      for member in pending[-1]:
+        if isinstance(member, Attr):
+          out.append(member)
+"""
+_EXPECT = """    token = self.next()
+    if token.kind != kind:
+      raise self.error(f'expected {kind!r}, got {token.value!r}',
+                       line=token.line)
+    return token
+"""
+
+
+def _expect_helper(test="token.kind != kind"):
+    return [(FILE, _EXPECT, "    token = self.next()\n    self._require_kind(token, kind)\n    return token\n\n"
+             "  def _require_kind(self, token: _Token, kind: str):\n"
+             f"    if {test}:\n      raise self.error(f'expected {{kind!r}}, got {{token.value!r}}',\n"
+             "                       line=token.line)\n")]
+
+
+_CHECKER_CLASS = '''class _ElementChecker:
+  """Per-element checks."""
+
+  def __init__(self, schema: Schema):
+    self.schema = schema
+
+  def fail(self, line: int, message: str):
+    raise SchemaError(self.schema.path, line, message)
+
+  def known(self, name: str) -> bool:
+    return name in self.schema.elements
+
+  def check_children(self, element: Element):
+    seen_children = set()
+    for child in element.children():
+      if not self.known(child.name):
+        self.fail(child.line, f'child references undeclared element {child.name!r}')
+      if child.name in seen_children:
+        self.fail(child.line, f'duplicate child {child.name!r}')
+      seen_children.add(child.name)
+
+
+'''
+_ATTR_LOOP = ("  for container in containers:\n    for attr in container.members:\n      if isinstance(attr, Attr):\n"
+              "        _validate_attr(schema, attr, namespaces)\n")
+
+MUTANTS += [
+    {"id": "flag-loop-without-emptiness-test", "expect": ("R-EXC-OPS", "Schema._group_attrs:pending"),
+     "edits": [(FILE, _GA_LOOP, _GA_FLAG.replace("      if not pending:\n", "      if len(out) > 100000:\n"))]},
+    {"id": "kind-check-helper-lets-eof-through", "expect": ("R-EXC-OPS", "_Parser.expect"),
+     "edits": _expect_helper("token.kind != kind and token.kind != 'eof'")},
+    {"id": "ctl-flag-loop-with-emptiness-test", "expect": None, "edits": [(FILE, _GA_LOOP, _GA_FLAG)]},
+    {"id": "ctl-kind-check-in-checking-helper", "expect": None, "edits": _expect_helper()},
+    {"id": "ctl-checks-in-helper-class", "expect": None,
+     "edits": [(FILE, _VALIDATE_HEAD, _CHECKER_CLASS + _VALIDATE_HEAD + "  checker = _ElementChecker(schema)\n"),
+               (FILE, _CHILD_LOOP, "    checker.check_children(element)\n")]},
+    {"id": "ctl-attribute-loop-over-comprehension", "expect": None,
+     "edits": [(FILE, _ATTR_LOOP, "  attrs = [m for c in containers for m in c.members if isinstance(m, Attr)]\n"
+                "  for attr in attrs:\n    _validate_attr(schema, attr, namespaces)\n")]},
+    {"id": "ctl-int-conversion-in-helper", "expect": None,
+     "edits": [(FILE, "    try:\n      value = int(token.value)\n    except ValueError:\n      raise self.error(f'expected integer, got {token.value!r}',\n"
+                "                       line=token.line) from None\n    if value < 0:\n      raise self.error('arity may not be negative', line=token.line)\n    return value\n",
+                "    value = self._to_int(token)\n    if value < 0:\n      raise self.error('arity may not be negative', line=token.line)\n    return value\n\n"
+                "  def _to_int(self, token: _Token) -> int:\n    try:\n      return int(token.value)\n    except ValueError:\n"
+                "      raise self.error(f'expected integer, got {token.value!r}',\n                       line=token.line) from None\n")]},
+]
+
+
+def selftest(res):
+    from .. import r_misc
+    r_misc.run_mutants("C41", res, MUTANTS, parts=("doc/generate",))
